@@ -1,5 +1,6 @@
 import BarterModel.Lemmas.Index
 import BarterModel.Lemmas.Review2_C11
+import BarterModel.Lemmas.KernelsAgree.IndexerSM
 /-!
 # C11 — Instrument/asset/exchange indices are dense, unique and consistently resolved
 
@@ -620,5 +621,29 @@ the old gate `WFInstruments` fails while the new one holds, so `res` and `rt 1 1
 there; `exDefs` satisfies both. -/
 example : ¬ WFInstruments twoEx ∧ WFAssets twoEx ∧ WFNamesPerExchange twoEx := by decide
 example : WFAssets exDefs ∧ WFNamesPerExchange exDefs := by decide
+
+/-- **Tie to the source by translation: the index builder and the lookups.** `IndexedInstrumentsBuilder::{new,
+add_instrument, build}` (barter-instrument/src/index/builder.rs), `IndexedInstruments::{new, builder, find_exchange_index,
+find_exchange, find_asset_index, find_asset, find_instrument_index, find_instrument}` and the free
+`find_exchange_by_exchange_id` / `find_asset_by_exchange_and_name_internal` (index/mod.rs), `Instrument::{map_exchange_key,
+map_asset_key_with_lookup}`, `InstrumentKind::settlement_asset`, `ExchangeAsset::new`, `Underlying::new`, with the full
+`Instrument`, `InstrumentKind` and its contracts, `InstrumentSpec*`, `OrderQuantityUnits`, `Asset`, `ExchangeAsset`,
+`Keyed`, the index newtypes and `IndexError`, are regenerated from the current source by `tools/rust2lean_sm.py` on every
+run (`Generated/Machines4.lean`, group `indexer`): `sort()` is core's stable `List.mergeSort` by an explicit ordering
+parameter per element type (`#[derive(Ord)]` itself is not translated), `dedup()` removes consecutive equal elements,
+`into_iter().enumerate().map(..).collect()` / `find` / `find_map` / `fold` are list functions, the closure handed to
+`map_asset_key_with_lookup` a pure function value, the two `expect`s `Rust.unreachable`. For EVERY injective coding `cd`
+of decimals and instants as the model's `Nat`s (one exists: `stdCoding`), through abstraction maps that are injective:
+`add_instrument` IS the model's `Builder.addInstrument`; each of the eight lookups IS the model's (up to `toOption`: the
+model does not say which `IndexError` a failed lookup carries); `map_asset_key_with_lookup` IS the model's
+`mapAssetKeyWithLookup` for every lookup function; and under the hypothesis `OrdHyp` on the three untranslated ordering
+parameters — each is the lexicographic order the model's sort keys spell out (satisfiable: `ordHyp_satisfiable`) —
+`build` and `IndexedInstruments::new` return the model's `Builder.build` / `build` (the definitions `dense`,
+`unique_*`, `references_resolve`, `order_independent`, `lookups_inverse_*` are about) wherever the model's does not panic,
+which by `build_total` is always. The statement is that of `KernelsAgree.IndexerSM.indexer_agrees`
+(Lemmas/KernelsAgree/IndexerSM.lean). -/
+theorem index_builder_agrees_with_source :
+    type_of% BarterModel.KernelsAgree.IndexerSM.indexer_agrees :=
+  BarterModel.KernelsAgree.IndexerSM.indexer_agrees
 
 end BarterModel.Props.C11
